@@ -434,7 +434,7 @@ class Gen:
     # -- definitions -----------------------------------------------------------------
     def gen_alias(self, ns):
         name = self.fresh(ns, ALIAS_NAMES)
-        ty = self.gen_type(ns, allow_nullable=True)
+        ty = self.gen_type(ns, allow_nullable=getattr(self.cfg, 'nullable_aliases', True))
         return Alias(name=name, ns=ns, type=ty, doc=self.doc({'ns': ns}, short=True), anns=[])
 
     def field_names(self, n, taken):
@@ -451,9 +451,52 @@ class Gen:
                 out.append(c)
         return out
 
+    def requires(self, ty, targets, seen=None):
+        """Does every value of type expression ty contain a value of one of the target structs?"""
+        seen = seen or set()
+        rt = self.m.resolve(ty)
+        if rt.kind in ('prim', 'nullable', 'map'):
+            return False
+        if rt.kind == 'list':
+            return rt.args.get('min_items', 0) > 0 and self.requires(rt.item, targets, seen)
+        d = self.m.lookup(rt.ns, rt.name)
+        key = (d.ns, d.name)
+        if key in targets:
+            return True
+        if key in seen:
+            return False
+        seen = seen | {key}
+        if isinstance(d, Struct):
+            if d.subtypes:
+                subs = [sub for _, sub in self.m.subtypes_of(d)]
+                return bool(subs) and all(self._struct_requires(sub, targets, seen) for sub in subs)
+            return self._struct_requires(d, targets, seen)
+        tags = self.m.all_tags(d)
+        if not d.closed:
+            return False
+        return bool(tags) and all(g.type is not None and self.requires(g.type, targets, seen) for g in tags)
+
+    def _struct_requires(self, s, targets, seen):
+        if (s.ns, s.name) in targets:
+            return True
+        for f in self.m.all_fields(s):
+            if f.default is None and self.requires(f.type, targets, seen):
+                return True
+        return False
+
     def gen_field(self, ns, name, owner):
         t = self.t
         ty = self.gen_type(ns)
+        if owner is not None:
+            # no value could ever be built for a struct that requires an instance of itself
+            # (directly, through its base, or through a type that requires it)
+            targets = {(ns, owner)}
+            od = self.m.lookup(ns, owner)
+            while od.parent:
+                targets.add(tuple(od.parent))
+                od = self.m.lookup(*od.parent)
+            if self.requires(ty, targets):
+                ty = T('nullable', inner=ty) if not self.m.unwrap(ty)[1] else ty
         if owner is not None and t.chance(6) and self.cfg.cycles:
             # self reference through a nullable or a list
             me = T('ref', ns=ns, name=owner)
@@ -509,7 +552,7 @@ class Gen:
             taken = set()
         u = Union(name=name, ns=ns, closed=closed, parent=parent, tags=[], doc=None, examples=[])
         self.m.namespaces[ns].defs.append(u)
-        ntags = t.rng(0 if not closed else 1, 5)
+        ntags = t.rng(0 if not closed and not getattr(self.cfg, 'min_one_tag', False) else 1, 5)
         start = t.draw(len(TAG_NAMES))
         i = 0
         while len(u.tags) < ntags:
@@ -521,6 +564,11 @@ class Gen:
             ty = None
             if t.chance(55):
                 ty = self.gen_type(ns)
+                probe = ty
+                while probe.kind == 'list':
+                    probe = probe.item
+                if probe.kind == 'ref' and (probe.ns, probe.name) == (ns, name):
+                    ty = T('nullable', inner=ty) if ty.kind != 'nullable' else ty
                 if t.chance(5) and self.cfg.cycles:
                     ty = T('nullable', inner=T('ref', ns=ns, name=name))
             u.tags.append(Tag(name=c, type=ty, doc=self.doc({'ns': ns}, short=True)))
